@@ -271,6 +271,25 @@ struct World {
 			const bool templated = in.logM == Method::PRE_REACT || in.logM == Method::REACT || in.logM == Method::POST_REACT || in.logM == Method::QUERY;
 			if (HAS_LOG && !HAS_VERBOSE && !templated && in.logSid != ROOT)
 				V("C16", fmt("method-record-for-state-without-callback|%s", mname(in.logM)), fmt("non-verbose logging recorded (%u,%s) although the class of state %u defines no callback; %s", in.logSid, mname(in.logM), in.logSid, tail().c_str()));
+			// the implicit head of a headless machine defines nothing either; what verbose logging records for it must still
+			// be something that happens to the root region in the operation under way
+			if (in.logSid == ROOT && !cfg::HEAD) {
+				const uint8_t op = in.st.op;
+				const Method m = in.logM;
+				bool fits;
+				switch (m) {
+				case Method::QUERY: fits = op == OP_QUERY; break;
+				case Method::PRE_UPDATE: case Method::UPDATE: case Method::POST_UPDATE: fits = op == OP_UPDATE; break;
+				case Method::PRE_REACT: case Method::REACT: case Method::POST_REACT: fits = op == OP_REACT; break;
+				case Method::PLAN_SUCCEEDED: case Method::PLAN_FAILED: fits = op == OP_UPDATE || op == OP_REACT; break;
+				case Method::ENTRY_GUARD: case Method::ENTER: fits = isActivationOp(op) || op == OP_LOAD || op == OP_REPLAY_ENTER; break;
+				case Method::EXIT: fits = op == OP_EXIT || op == OP_DTOR || op == OP_LOAD; break;
+				default: fits = false; break;
+				}
+				if (!fits)
+					V("C16", fmt("root-region-record-does-not-fit-the-operation|%s|op=%s", mname(m), opName(op)), fmt("method record (root,%s) during %s: nothing of that kind is delivered to the root region by this operation; %s", mname(m), opName(op), tail().c_str()));
+				else stats.add("c16_root_region_records_checked");
+			}
 			stats.add("c16_records_for_invisible_states");
 			return;
 		}
